@@ -272,56 +272,213 @@ static bool tree_of_mini(const MMessage * m, CMsg & out, std::string & why)
    return true;
 }
 
+// g_hist != 0: sub-Messages are built through edit histories too (LCG state of the history builder)
+static uint32 g_hist;
+static uint32 hist_next() {g_hist = (uint32)((((uint64) g_hist) * 1103515245ULL + 12345ULL) & 0x7fffffffULL); return g_hist >> 8;}
+static MMessage * mini_history_of_tree(const CMsg & t);
+static MMessage * mini_of_tree(const CMsg & t);
+
+// put field (f) of a tree into (m) under the name (nm) with the MMPut API (the field lands at the end of m)
+static bool put_mini_field(MMessage * m, const CField & f, const char * nm, bool hist, MBool retain)
+{
+   const uint32 n = (uint32) f.items.size();
+   const uint32 w = fixed_width(f.tc);
+   bool ok = true;
+   if (f.tc == B_MESSAGE_TYPE)
+   {
+      MMessage ** a = MMPutMessageField(m, MFalse, nm, n);
+      ok = (a != NULL);
+      for (uint32 i=0; ok && i<n; i++) {a[i] = hist ? mini_history_of_tree(*f.items[i].sub) : mini_of_tree(*f.items[i].sub); ok = (a[i] != NULL);}
+   }
+   else if (w > 0)
+   {
+      uint8 * p = NULL;
+      switch(f.tc)
+      {
+         case B_BOOL_TYPE:   p = (uint8 *) MMPutBoolField(m, retain, nm, n);   break;
+         case B_INT8_TYPE:   p = (uint8 *) MMPutInt8Field(m, retain, nm, n);   break;
+         case B_INT16_TYPE:  p = (uint8 *) MMPutInt16Field(m, retain, nm, n);  break;
+         case B_INT32_TYPE:  p = (uint8 *) MMPutInt32Field(m, retain, nm, n);  break;
+         case B_INT64_TYPE:  p = (uint8 *) MMPutInt64Field(m, retain, nm, n);  break;
+         case B_FLOAT_TYPE:  p = (uint8 *) MMPutFloatField(m, retain, nm, n);  break;
+         case B_DOUBLE_TYPE: p = (uint8 *) MMPutDoubleField(m, retain, nm, n); break;
+         case B_POINT_TYPE:  p = (uint8 *) MMPutPointField(m, retain, nm, n);  break;
+         case B_RECT_TYPE:   p = (uint8 *) MMPutRectField(m, retain, nm, n);   break;
+      }
+      ok = (p != NULL);
+      for (uint32 i=0; ok && i<n; i++) memcpy(p+i*w, &f.items[i].bytes[0], w);
+   }
+   else
+   {
+      MByteBuffer ** a = (f.tc == B_STRING_TYPE) ? MMPutStringField(m, MFalse, nm, n) : MMPutDataField(m, MFalse, f.tc, nm, n);
+      ok = (a != NULL);
+      for (uint32 i=0; ok && i<n; i++)
+      {
+         const std::vector<uint8> & b = f.items[i].bytes;
+         const uint32 nb = (uint32) b.size() + ((f.tc == B_STRING_TYPE) ? 1 : 0);
+         a[i] = MBAllocByteBuffer(nb, MTrue);
+         ok = (a[i] != NULL);
+         if (ok && !b.empty()) memcpy(&a[i]->bytes, &b[0], b.size());
+      }
+   }
+   return ok;
+}
+
 static MMessage * mini_of_tree(const CMsg & t)
 {
    MMessage * m = MMAllocMessage(t.what);
    if (m == NULL) return NULL;
    for (size_t fi=0; fi<t.fields.size(); fi++)
+      if (!put_mini_field(m, t.fields[fi], t.fields[fi].name.c_str(), false, MFalse)) {MMFreeMessage(m); return NULL;}
+   return m;
+}
+
+// ---- the same final content reached through an EDIT HISTORY of the MiniMessage API: every field is put last and must end
+// up last, but on the way it is renamed from a longer / shorter / equally long temporary name, re-put over a field of another
+// type or item count (with and without retainOldData), renamed onto an existing field of its final name, moved in from
+// another MMessage, or a decoy field next to it is removed again.  The choices come from an LCG seeded from the case text.
+static std::string temp_name(const CMsg & t, const std::string & name, int kind, size_t fi)   // kind 0 longer, 1 shorter, 2 equal
+{
+   char digits[32]; snprintf(digits, sizeof(digits), "~%u", (unsigned) fi);
+   std::string cand;
+   if (kind == 0) cand = name + digits + "~tmp";
+   else
+   {
+      const size_t want = (kind == 1) ? ((name.size() > 0) ? (hist_next() % name.size()) : 0) : name.size();
+      if ((kind == 1)&&(name.empty())) return name + digits + "~tmp";
+      cand = digits;
+      while(cand.size() < want) cand += '~';
+      cand.resize(want);
+   }
+   if (cand == name) return name + digits + "~tmp";
+   for (size_t i=0; i<t.fields.size(); i++) if (t.fields[i].name == cand) return name + digits + "~tmp";
+   return cand;
+}
+
+static bool put_decoy(MMessage * m, const char * nm, uint32 variant)
+{
+   switch(variant % 4)
+   {
+      case 0:  {int32 * p = MMPutInt32Field(m, MFalse, nm, 3); if (p == NULL) return false; p[0] = 1; p[1] = 2; p[2] = 3; return true;}
+      case 1:  {MByteBuffer ** a = MMPutStringField(m, MFalse, nm, 2); if (a == NULL) return false; a[0] = MBStrdupByteBuffer("decoy"); a[1] = MBStrdupByteBuffer(""); return (a[0] != NULL)&&(a[1] != NULL);}
+      case 2:  {int64 * p = MMPutInt64Field(m, MFalse, nm, 1); if (p == NULL) return false; p[0] = -1; return true;}
+      default: {MMessage ** a = MMPutMessageField(m, MFalse, nm, 1); if (a == NULL) return false; a[0] = MMAllocMessage(7); return (a[0] != NULL);}
+   }
+}
+
+static MMessage * mini_history_of_tree(const CMsg & t)
+{
+   MMessage * m = MMAllocMessage(t.what ^ 0x55);      // the what-code is edited too
+   if (m == NULL) return NULL;
+   MMSetWhat(m, t.what);
+   for (size_t fi=0; fi<t.fields.size(); fi++)
    {
       const CField & f = t.fields[fi];
-      const uint32 n = (uint32) f.items.size();
-      const uint32 w = fixed_width(f.tc);
+      const char * nm = f.name.c_str();
+      const uint32 strategy = hist_next() % 10;
       bool ok = true;
-      if (f.tc == B_MESSAGE_TYPE)
+      if (strategy <= 2)
       {
-         MMessage ** a = MMPutMessageField(m, MFalse, f.name.c_str(), n);
-         ok = (a != NULL);
-         for (uint32 i=0; ok && i<n; i++) {a[i] = mini_of_tree(*f.items[i].sub); ok = (a[i] != NULL);}
+         // put under a temporary name (0: longer, 1: shorter, 2: equally long), then MMRenameField
+         const std::string tmp = temp_name(t, f.name, (int) strategy, fi);
+         ok = put_mini_field(m, f, tmp.c_str(), true, MFalse) && (MMRenameField(m, tmp.c_str(), nm) == CB_NO_ERROR);
       }
-      else if (w > 0)
+      else if (strategy == 3)
       {
-         uint8 * p = NULL;
-         switch(f.tc)
+         // a field of another type / item count under the final name first, then re-put
+         ok = put_decoy(m, nm, hist_next()) && put_mini_field(m, f, nm, true, MFalse);
+      }
+      else if (strategy == 4)
+      {
+         // fixed-size types: the same type with another item count first, re-put with retainOldData
+         const uint32 w = fixed_width(f.tc);
+         if ((w > 0)&&(f.tc != B_MESSAGE_TYPE))
          {
-            case B_BOOL_TYPE:   p = (uint8 *) MMPutBoolField(m, MFalse, f.name.c_str(), n);   break;
-            case B_INT8_TYPE:   p = (uint8 *) MMPutInt8Field(m, MFalse, f.name.c_str(), n);   break;
-            case B_INT16_TYPE:  p = (uint8 *) MMPutInt16Field(m, MFalse, f.name.c_str(), n);  break;
-            case B_INT32_TYPE:  p = (uint8 *) MMPutInt32Field(m, MFalse, f.name.c_str(), n);  break;
-            case B_INT64_TYPE:  p = (uint8 *) MMPutInt64Field(m, MFalse, f.name.c_str(), n);  break;
-            case B_FLOAT_TYPE:  p = (uint8 *) MMPutFloatField(m, MFalse, f.name.c_str(), n);  break;
-            case B_DOUBLE_TYPE: p = (uint8 *) MMPutDoubleField(m, MFalse, f.name.c_str(), n); break;
-            case B_POINT_TYPE:  p = (uint8 *) MMPutPointField(m, MFalse, f.name.c_str(), n);  break;
-            case B_RECT_TYPE:   p = (uint8 *) MMPutRectField(m, MFalse, f.name.c_str(), n);   break;
+            CField g = f;
+            const uint32 n2 = 1 + (hist_next() % 5);
+            g.items.clear();
+            for (uint32 i=0; i<n2; i++) {CItem it; it.bytes.assign(w, (uint8)(0xA0+i)); if (f.tc == B_BOOL_TYPE) it.bytes[0] = 1; g.items.push_back(it);}
+            ok = put_mini_field(m, g, nm, true, MFalse) && put_mini_field(m, f, nm, true, MTrue);
          }
-         ok = (p != NULL);
-         for (uint32 i=0; ok && i<n; i++) memcpy(p+i*w, &f.items[i].bytes[0], w);
+         else ok = put_mini_field(m, f, nm, true, MFalse);
       }
-      else
+      else if (strategy == 5)
       {
-         MByteBuffer ** a = (f.tc == B_STRING_TYPE) ? MMPutStringField(m, MFalse, f.name.c_str(), n) : MMPutDataField(m, MFalse, f.tc, f.name.c_str(), n);
-         ok = (a != NULL);
-         for (uint32 i=0; ok && i<n; i++)
-         {
-            const std::vector<uint8> & b = f.items[i].bytes;
-            const uint32 nb = (uint32) b.size() + ((f.tc == B_STRING_TYPE) ? 1 : 0);
-            a[i] = MBAllocByteBuffer(nb, MTrue);
-            ok = (a[i] != NULL);
-            if (ok && !b.empty()) memcpy(&a[i]->bytes, &b[0], b.size());
-         }
+         // a decoy neighbour, put before and removed after
+         const std::string tmp = temp_name(t, f.name, (int)(hist_next() % 3), fi);
+         ok = put_decoy(m, tmp.c_str(), hist_next()) && put_mini_field(m, f, nm, true, MFalse) && (MMRemoveField(m, tmp.c_str()) == CB_NO_ERROR);
       }
+      else if (strategy == 6)
+      {
+         // built in another MMessage (under a temporary name there, renamed there), then MMMoveField
+         MMessage * other = MMAllocMessage(1);
+         const std::string tmp = temp_name(t, f.name, (int)(hist_next() % 3), fi);
+         ok = (other != NULL) && put_decoy(other, "~neighbour", hist_next()) && put_mini_field(other, f, tmp.c_str(), true, MFalse)
+           && (MMRenameField(other, tmp.c_str(), nm) == CB_NO_ERROR) && (MMMoveField(other, nm, m) == CB_NO_ERROR);
+         if (other) MMFreeMessage(other);
+      }
+      else if (strategy == 7)
+      {
+         // renamed ONTO an existing field of the final name (which disappears)
+         const std::string tmp = temp_name(t, f.name, (int)(hist_next() % 3), fi);
+         ok = put_decoy(m, nm, hist_next()) && put_mini_field(m, f, tmp.c_str(), true, MFalse) && (MMRenameField(m, tmp.c_str(), nm) == CB_NO_ERROR);
+      }
+      else if (strategy == 8)
+      {
+         // two renames in a row: longer, then shorter than the final name, then the final name
+         const std::string t0 = temp_name(t, f.name, 0, fi), t1 = temp_name(t, f.name, 1, fi);
+         ok = put_mini_field(m, f, t0.c_str(), true, MFalse) && (MMRenameField(m, t0.c_str(), t1.c_str()) == CB_NO_ERROR) && (MMRenameField(m, t1.c_str(), nm) == CB_NO_ERROR);
+      }
+      else ok = put_mini_field(m, f, nm, true, MFalse);
       if (!ok) {MMFreeMessage(m); return NULL;}
    }
    return m;
+}
+
+// ---- an independent walk over flattened bytes: the documented layout and nothing else (protocol, what, field count; per field
+// a length-prefixed NUL-terminated name whose prefix is strlen(name)+1, type code, length-prefixed payload; Message payloads
+// are length-prefixed Messages), every byte accounted for
+static bool layout_ok(const uint8 * p, size_t n, std::string & why, int depth = 0)
+{
+   #define RD32(off) ((uint32)p[(off)] | ((uint32)p[(off)+1]<<8) | ((uint32)p[(off)+2]<<16) | ((uint32)p[(off)+3]<<24))
+   if (depth > 64) {why = "nesting too deep"; return false;}
+   if (n < 12) {why = "shorter than the 12-byte header"; return false;}
+   if (RD32(0) != 1347235888u) {why = "protocol version word is not 'PM00'"; return false;}
+   const uint32 nf = RD32(8);
+   size_t pos = 12;
+   for (uint32 i=0; i<nf; i++)
+   {
+      if (n-pos < 4) {why = "truncated at a name-length prefix"; return false;}
+      const uint32 nl = RD32(pos); pos += 4;
+      if ((nl == 0)||(nl > n-pos)) {why = "name-length prefix does not fit"; return false;}
+      const size_t sl = strnlen((const char *)(p+pos), nl);
+      if (sl+1 != nl)
+      {
+         char tmp[160]; snprintf(tmp, sizeof(tmp), "field %u: name-length prefix says %u bytes, the NUL-terminated name occupies %u", (unsigned) i, (unsigned) nl, (unsigned)(sl+1));
+         why = tmp; return false;
+      }
+      pos += nl;
+      if (n-pos < 8) {why = "truncated at type code / payload length"; return false;}
+      const uint32 tc = RD32(pos), dl = RD32(pos+4); pos += 8;
+      if (dl > n-pos) {why = "payload length does not fit"; return false;}
+      if (tc == B_MESSAGE_TYPE)
+      {
+         size_t q = pos; const size_t e = pos+dl;
+         while(q < e)
+         {
+            if (e-q < 4) {why = "truncated sub-Message length"; return false;}
+            const uint32 sl2 = RD32(q); q += 4;
+            if (sl2 > e-q) {why = "sub-Message length does not fit"; return false;}
+            if (!layout_ok(p+q, sl2, why, depth+1)) {why = "sub-Message: " + why; return false;}
+            q += sl2;
+         }
+      }
+      else if ((fixed_width(tc) > 0)&&((dl % fixed_width(tc)) != 0)) {why = "payload of a fixed-width type is not a multiple of the item width"; return false;}
+      pos += dl;
+   }
+   if (pos != n) {why = "bytes left over after the last field"; return false;}
+   return true;
+   #undef RD32
 }
 
 // ---- micro -> tree, tree -> micro
@@ -665,6 +822,49 @@ static void gateway_leg(int k, const std::vector<const Message *> & msgs, const 
    }
 }
 
+// a MiniMessage built by the harness: its bytes must be the documented layout, the C++ bytes of the same content, parse in
+// C++ to the same content, and its gateway stream must be the C++ gateway's
+static void check_mini_built(int k, MMessage * mb, const char * how, const std::vector<uint8> & B, const std::vector<uint8> & FR, const std::string & refcct, std::ostringstream & orc)
+{
+   const uint32 fs = (uint32) B.size();
+   if (mb == NULL) {orc << k << " ORACLE FAIL mini: could not build " << how << "\n"; return;}
+   const uint32 ms = MMGetFlattenedSize(mb);
+   uint8 * raw = new uint8[ms ? ms : 1];            // exact size: ASan sees a write past MMGetFlattenedSize()
+   memset(raw, 0xEE, ms ? ms : 1);
+   MMFlattenMessage(mb, raw);
+   std::vector<uint8> bytes(raw, raw+ms);
+   delete [] raw;
+   std::string lw;
+   if (!layout_ok(bytes.empty() ? (const uint8 *) "" : &bytes[0], ms, lw)) orc << k << " ORACLE FAIL mini: " << how << " does not serialise to the documented layout: " << lw << "\n";
+   if ((ms != fs)||(memcmp(bytes.empty() ? (const uint8 *) "" : &bytes[0], &B[0], fs) != 0)) orc << k << " ORACLE FAIL mini: " << how << " serialises to different bytes: " << hex(bytes.empty() ? (const uint8 *) "" : &bytes[0], ms).substr(0, 400) << "\n";
+   Message back;
+   if (back.UnflattenFromBytes(bytes.empty() ? (const uint8 *) "" : &bytes[0], ms).IsError()) orc << k << " ORACLE FAIL C++ rejects the bytes MMFlattenMessage produced\n";
+   else
+   {
+      CMsg t; std::string s, w2;
+      if (tree_of_cpp(back, t, w2)) {cct(t, s); if (s != refcct) orc << k << " ORACLE FAIL C++ parses mini's bytes to different content\n";}
+      const uint32 bs = back.FlattenedSize(); std::vector<uint8> bb(bs ? bs : 1); back.FlattenToBytes(&bb[0], bs);
+      if ((bs != ms)||(memcmp(&bb[0], bytes.empty() ? (const uint8 *) "" : &bytes[0], ms) != 0)) orc << k << " ORACLE FAIL C++ re-serialises mini's bytes to different bytes\n";
+   }
+   {
+      // mini's own reading of what it built
+      CMsg t; std::string s, w2;
+      if (!tree_of_mini(mb, t, w2)) orc << k << " ORACLE FAIL mini: cannot read back " << how << ": " << w2 << "\n";
+      else {cct(t, s); if (s != refcct) orc << k << " ORACLE FAIL mini: " << how << " reads back as different content: " << s.substr(0, 300) << "\n";}
+   }
+   // the C gateway's stream for this Message must be the C++ gateway's, byte for byte
+   MMessageGateway * mg = MGAllocMessageGateway();
+   if (mg && (MGAddOutgoingMessage(mg, mb) == CB_NO_ERROR))
+   {
+      std::vector<uint8> stream;
+      for (int guard=0; (guard < 1000) && MGHasBytesToOutput(mg); guard++) if (MGDoOutput(mg, 1u<<30, collect_send, &stream) < 0) break;
+      if (stream != FR) orc << k << " ORACLE FAIL mini gateway: stream differs from the C++ gateway's: " << hex(stream.empty() ? (const uint8 *)"" : &stream[0], stream.size() < 16 ? stream.size() : 16) << "\n";
+   }
+   else orc << k << " ORACLE FAIL mini gateway: MGAddOutgoingMessage failed\n";
+   if (mg) MGFreeMessageGateway(mg);
+   MMFreeMessage(mb);
+}
+
 static void run_case(int k, const std::string & head, const std::string & body)
 {
    std::ostringstream out, orc;
@@ -781,34 +981,17 @@ static void run_case(int k, const std::string & head, const std::string & body)
             else orc << k << " ORACLE FAIL mini: MMUnflattenMessage rejects the C++ bytes\n";
             if (mm) MMFreeMessage(mm);
 
-            // ---------------- mini: build with its own API, serialise, let C++ parse
-            MMessage * mb = mini_of_tree(ref);
-            if (mb)
+            // ---------------- mini: build with its own API (one-shot, then through an edit history), serialise, let C++ parse
+            check_mini_built(k, mini_of_tree(ref), "a Message built with the MMPut API", B, FR, refcct, orc);
+            for (int round=0; round<2; round++)
             {
-               const uint32 ms = MMGetFlattenedSize(mb);
-               std::vector<uint8> bytes(ms ? ms : 1);
-               MMFlattenMessage(mb, &bytes[0]);
-               if ((ms != fs)||(memcmp(&bytes[0], &B[0], fs) != 0)) orc << k << " ORACLE FAIL mini: a Message built with the MMPut API serialises to different bytes: " << hex(&bytes[0], ms).substr(0, 400) << "\n";
-               Message back;
-               if (back.UnflattenFromBytes(&bytes[0], ms).IsError()) orc << k << " ORACLE FAIL C++ rejects the bytes MMFlattenMessage produced\n";
-               else
-               {
-                  CMsg t; std::string s, w2;
-                  if (tree_of_cpp(back, t, w2)) {cct(t, s); if (s != refcct) orc << k << " ORACLE FAIL C++ parses mini's bytes to different content\n";}
-               }
-               // the C gateway's stream for this Message must be the C++ gateway's, byte for byte
-               MMessageGateway * mg = MGAllocMessageGateway();
-               if (mg && (MGAddOutgoingMessage(mg, mb) == CB_NO_ERROR))
-               {
-                  std::vector<uint8> stream;
-                  for (int guard=0; (guard < 1000) && MGHasBytesToOutput(mg); guard++) if (MGDoOutput(mg, 1u<<30, collect_send, &stream) < 0) break;
-                  if (stream != FR) orc << k << " ORACLE FAIL mini gateway: stream differs from the C++ gateway's: " << hex(stream.empty() ? (const uint8 *)"" : &stream[0], stream.size() < 16 ? stream.size() : 16) << "\n";
-               }
-               else orc << k << " ORACLE FAIL mini gateway: MGAddOutgoingMessage failed\n";
-               if (mg) MGFreeMessageGateway(mg);
-               MMFreeMessage(mb);
+               g_hist = 777 + (uint32) round; for (size_t i=0; i<body.size(); i++) g_hist = (g_hist*33 + (uint8) body[i]) & 0x7fffffff;
+               check_mini_built(k, mini_history_of_tree(ref), "a Message reached through an edit history (MMRenameField/MMRemoveField/MMMoveField/re-put)", B, FR, refcct, orc);
             }
-            else orc << k << " ORACLE FAIL mini: could not build the Message with the MMPut API\n";
+            {
+               std::string lw;
+               if (!layout_ok(&B[0], fs, lw)) orc << k << " ORACLE FAIL C++: the flattened bytes are not the documented layout: " << lw << "\n";
+            }
 
             // ---------------- micro: parse the C++ bytes
             {
